@@ -455,9 +455,13 @@ def analyse_kernel(folded, schema, e3=None):
             "got %s (arg_names %s), expected %s" % (argn, folded.get("arg_names"), exp_args))
     want_ni = [k for k, t in schema.num.items() if t.cls == "stream"]
     want_di = [k for k, t in schema.den.items() if t.cls == "stream" and k]
-    rep.add("C06.args", folded.get("num_iterables") == want_ni and folded.get("den_iterables") == want_di,
-            "num_iterables / den_iterables list the delays holding Streams, in term order",
-            "got %s / %s expected %s / %s" % (folded.get("num_iterables"), folded.get("den_iterables"), want_ni, want_di))
+    # the builder's own bookkeeping lists, when it keeps them as lists of delays (what reaches the kernel - parameter
+    # names above, call arguments in C04.exec - is checked whatever the bookkeeping looks like)
+    ni_, di_ = folded.get("num_iterables"), folded.get("den_iterables")
+    if isinstance(ni_, list) and isinstance(di_, list) and all(isinstance(k, int) for k in ni_ + di_):
+        rep.add("C06.args", ni_ == want_ni and di_ == want_di,
+                "num_iterables / den_iterables list the delays holding Streams, in term order",
+                "got %s / %s expected %s / %s" % (ni_, di_, want_ni, want_di))
     if want_next:
         rep.add("E3", protected_next[0], "next(coefficient) in the generated generator is inside try/except "
                 "StopIteration", "a finished coefficient Stream raises RuntimeError (PEP 479) instead of ending "
